@@ -13,21 +13,43 @@ PLAN = dict(
          "(prescribed structured r,s with the digest solved for, t=0 traps, x(R) outside [0,n), final addition = doubling or infinity, "
          "reference signer with extreme k and d, digest lengths 0..100 and digests >= n). history: every sequence of three signing "
          "operations (6 operations) on key objects with d in {n-1, n, n+1, n+5, 2n-1, 2^256-1, 2^256, 2^256+n-1} on the SM2 curve and on "
-         "legacy curves, plus longer random sequences; every call must return an error, no panic, bounded reads. legacy: math/big path "
-         "on NIST P-256 and on a generic copy of the SM2 parameters. Non-trivial = every case (none is an identity case); distinct = "
+         "legacy curves (NIST P-224/256/384/521, generic SM2 copy, secp160r1, a parameter set whose order is 0), plus longer random sequences; every call must return an error, no panic, bounded reads. legacy: math/big path "
+         "(sm2_legacy.go) on NIST P-224/256/384/521, a generic copy of the SM2 parameters and custom secp192r1 / secp160r1 (161-bit "
+         "order): every signing entry point x planted random stream (none; the retry conditions r=0 / r+k=n / s=0 forced through the "
+         "digest; rejected first block 0 or in [n, 2^bitlen(n)); k=1; k=n-1; blocks spelled as the path reads them, surplus high bits "
+         "of the first octet filled), honest signature to every verifying entry point that reaches the path (sm2 and smx509) and "
+         "the reference; a small accept-set sweep on the unplanted cases. ledge: the same curves, nothing made by the library: "
+         "prescribed (r,s) from a per-curve table (1, 2, 3, octet/sign-octet/word boundaries, 2^(bits-1), n-1.., (n+-1)/2, the gap "
+         "2^bitlen(n)-n and its neighbours, the octet-length gap) with the digest solved for; traps (r+s=n, r or s congruent to 0); "
+         "prescribed point R (abscissa in [n,p), next to 0/p/n) with structured s, chosen digest (32 bytes, tiny, e and e+n, longer "
+         "than the order) and solved verification key; reference signer with extreme k,d in message mode; honest legacy signatures "
+         "with prescribed structured (r,s) (scripted nonce, solved key). Around every constructed pair ~55 out-of-range / re-encoded "
+         "neighbours: v+n, v+2n, v-n, -v, two's-complement twin, the largest v+kn below 2^bitlen(n) / 2^(8 octets) / 2^(8 octets-1), "
+         "the smallest from 2^bitlen(n) on, v+2^bitlen(n), 0, n, n+1, 2^bitlen(n)-1, 2^bitlen(n), members of [n,2^bitlen(n)), for r, "
+         "for s and for both; extra leading zero octets, fixed-width contents, dropped sign octet, trailing byte, long-form length; "
+         "plus in-range neighbours (r+1, s-1, swapped, n-r, n-s, one digest bit). Also a constructed valid signature under keys that are "
+         "not points of the curve (never accepted; the standard library's panic on such operands is counted, not judged) and "
+         "parameter sets whose order is 0 (never accepted, no panic). Non-trivial = every case (none is an identity case); distinct = "
          "distinct class keys (configuration | workload-specific key: signer/plant/uid/msg class/call index; candidate family/origin/"
          "key constructor/scalar class/integer lengths; edge construction and values; curve/scalar/operation sequence)",
     jobs=both("c06.complete", _CFG + ["avx", "ia32"], shards=(4, 16), floor=100)  # avx: SSE table select / point-add epilogues of sm2ec
     + both("c06.sound", _CFG, shards=(16, 16), floor=200)
     + both("c06.edge", _CFG + ["ia32"], shards=(4, 8), floor=100)
     + both("c06.history", _CFG + ["avx", "ia32"], shards=(2, 4), floor=500)
-    + both("c06.legacy", _CFG, shards=(2, 8), floor=30),
+    # the math/big path has no dispatch tier of the library below it (noadx only switches sm2ec/bigmod code it never enters)
+    + both("c06.legacy", ["avx2", "purego"], shards=(2, 8), floor=60)
+    + both("c06.ledge", ["avx2", "purego"], shards=(2, 8), floor=150),
     assumptions=["reference SM2 signature model in harness/ref/sm2sig over harness/ref/ec and harness/ref/sm3 (validated at every child "
                  "start against the GM/T 0003.5 signature example, the signature vectors in the library's tests, and encoding/asn1 for "
                  "the DER reader)",
                  "digests that are not 32 bytes: the library's documented rule (leftmost 32 bytes, integer reduced mod n) is the oracle; "
                  "for digests shorter than 32 bytes only acceptances are judged",
-                 "NIST P-256 cases of the legacy path are decided with the standard library's P-256 arithmetic"],
+                 "legacy-path cases (every curve other than the sm2ec singleton) are decided by harness/ref/wec: GB/T 32918.2 over affine big-integer "
+                 "arithmetic for the numbers of the curve, validated at every child start against the signature example of GB/T 32918.2 "
+                 "annex A.2 on the standard's example curve, crypto/elliptic's NIST curves and ref/ec + ref/sm2sig on the SM2 numbers; "
+                 "digests are converted as documented (leftmost bitlen(n) bits)",
+                 "NIST P-256 signing through the legacy path is not exercised in the purego build (crypto/elliptic's P-256 Inverse panics "
+                 "there: toolchain limitation); verification on P-256 is"],
 )
 
 CLAIM = dict(
@@ -37,10 +59,14 @@ CLAIM = dict(
          "signature must satisfy the reference equation and be accepted everywhere; for several hundred thousand candidates per run "
          "(mutations of valid signatures, constructed edge signatures, foreign keys/messages/identifiers, random pairs) the library's "
          "verdict must equal the reference's in both directions; signing with a scalar >= n-1 must fail on every call of every "
-         "three-operation history without panicking and within a logical read budget (256 blocks on invalid keys; 4096 blocks per honest signing call). Three arithmetic back ends (ADX+BMI2, plain "
+         "three-operation history without panicking and within a logical read budget (256 blocks on invalid keys; 4096 blocks per honest signing call). "
+         "The math/big path for other curves (NIST P-224/256/384/521, generic SM2 copy, custom secp192r1/secp160r1) is held to the same "
+         "accept set by signatures constructed without the library (prescribed tiny / boundary / near-n r and s, solved digests and "
+         "keys) and every out-of-range or re-encoded alias of them that still fits the bit or octet length of n, at all sm2 and smx509 "
+         "entry points that reach it. Three arithmetic back ends (ADX+BMI2, plain "
          "MULQ, pure Go). Held on the cases executed; not a proof.",
     design_ref="DESIGN.md 6 (C06)",
-    note="trusted: harness/ref/sm2sig, ref/ec, ref/sm3, math/big, encoding/asn1 (self test only), crypto/elliptic P-256 for the legacy "
-         "NIST cases; soundness is decided on the candidate classes listed in the rule",
+    note="trusted: harness/ref/sm2sig, ref/ec, ref/sm3, math/big, encoding/asn1 (self test only), harness/ref/wec (generic-curve model; crypto/elliptic "
+         "only in its self test); soundness is decided on the candidate classes listed in the rule",
     technique="accept-set monitor (both directions) + differential reference + history monitor with scripted random source and logical retry budget + panic monitor",
 )
